@@ -51,7 +51,7 @@ def merge_part(res, known):
     for kind, text in info['failures']:
         fid = None
         for prefix, f in known.items():
-            if kind.startswith(prefix):
+            if common.kind_matches(kind, prefix):
                 fid = f
         if fid:
             res.known_hit(fid)
